@@ -12,7 +12,7 @@ CFG = {
         J("prod", "c20-rt", needs_repo_bins=["mla-bindings-c"], imports="Base Stream Inst Run RunC20", shard=30),
     ],
     "run_modules": ["RunC13", "RunFsComp", "RunWRows", "RunWRowsProofs", "RunHdr", "RunC20"],
-    "rule": "scaled constants: 48 (quick) / 300 (thorough) generated archives (as C01: 1-4 files, boundary-sized interleaved pieces, the 4 layer "
+    "rule": "c20-rt also runs C-interface round trips whose write callback reports EINTR once at its k-th invocation (the archive must be completed). scaled constants: 48 (quick) / 300 (thorough) generated archives (as C01: 1-4 files, boundary-sized interleaved pieces, the 4 layer "
             "combinations in turn, levels {0,1,5,9,11}), each (a) written through a sink accepting at most sched[i] bytes at the i-th write "
             "(schedules: constant 1, 2, 3, one of {5,7,13,31,97}, 100000, or 2-11 random quotas in 1..39; last entry repeats) and reporting "
             "ErrorKind::Interrupted at every intr-th call, intr in {never, 2, 3, 5}, then read back; (b) written to memory and read (list, hash "
